@@ -1133,3 +1133,104 @@ Example topn_slice_deep_ex :
     = Ok [370; 377; 384; 391; 398; 405; 412; 419; 426; 433] /\
   rmap (fun r => length (fst r)) (topn_search (fun _ (b : unit) => b) 1101 ex_order1 (PFrom 0) [] tt exdeep) = Ok 1100%nat.
 Proof. vm_compute. repeat split. Qed.
+
+(* ---------- chained search-before ---------- *)
+
+Section BeforeChain.
+  Variable descs : list bool.
+  Notation cmp := (compare descs).
+
+  (* mirror of after_suffix: the hits strictly before the key of x are the prefix in front of x *)
+  Lemma before_prefix pre x suf : StronglySorted (le cmp) (pre ++ x :: suf) -> NoDup (pre ++ x :: suf) ->
+    keys_distinct descs (pre ++ x :: suf) ->
+    filter (before_key descs (h_sort x)) (pre ++ x :: suf) = pre.
+  Proof.
+    intros Hs ND KD. rewrite filter_app. cbn [filter].
+    destruct (sorted_app_inv cmp pre (x :: suf) Hs) as (_ & Hs2 & H12).
+    inversion Hs2 as [|? ? Hs3 Hx]; subst. rewrite Forall_forall in Hx.
+    assert (Hkx : cmp_keys descs (h_sort x) (h_sort x) = 0) by apply (law_refl _ (lawful_cmp_keys descs)).
+    unfold before_key at 2. rewrite Hkx. cbn [Z.ltb Z.compare].
+    assert (Hxin : In x (pre ++ x :: suf)) by (apply in_or_app; right; left; reflexivity).
+    assert (E1 : filter (before_key descs (h_sort x)) pre = pre).
+    { apply filter_true. intros d Hd. unfold before_key.
+      assert (Hdin : In d (pre ++ x :: suf)) by (apply in_or_app; left; exact Hd).
+      assert (Nk : cmp_keys descs (h_sort d) (h_sort x) <> 0).
+      { intro E. pose proof (KD d x Hdin Hxin E). subst d.
+        apply NoDup_remove_2 in ND. apply ND, in_or_app. left. exact Hd. }
+      pose proof (H12 d x Hd (or_introl eq_refl)) as Hle. unfold le in Hle. rewrite (compare_keys descs d x Nk) in Hle. lia. }
+    assert (E2 : filter (before_key descs (h_sort x)) suf = []).
+    { rewrite (filter_ext_in _ (fun _ => false)); [clear; induction suf as [|s0 suf IHs]; [reflexivity | exact IHs]|].
+      intros d Hd. unfold before_key.
+      assert (Hdin : In d (pre ++ x :: suf)) by (apply in_or_app; right; right; exact Hd).
+      assert (Nk : cmp_keys descs (h_sort x) (h_sort d) <> 0).
+      { intro E. pose proof (KD x d Hxin Hdin E). subst d.
+        apply NoDup_remove_2 in ND. apply ND, in_or_app. right. exact Hd. }
+      pose proof (Hx d Hd) as Hle. unfold le in Hle. rewrite (compare_keys descs x d Nk) in Hle.
+      pose proof (law_antisym _ (lawful_cmp_keys descs) (h_sort x) (h_sort d)). lia. }
+    rewrite E1, E2, app_nil_r. reflexivity.
+  Qed.
+End BeforeChain.
+
+Section CoversBefore.
+  Context {B : Type}.
+  Variable consume : hit -> B -> B.
+  Variables (n : Z) (order : list sortspec) (aggf : list Z) (b0 : B) (hits : list rawhit).
+  Hypothesis Hn : 0 < n.
+  Notation descs := (descs_of order).
+  Notation prepared := (prepare_all (order_fields order ++ aggf) order 0 hits).
+  Hypothesis KD : keys_distinct descs prepared.
+
+  Let Rk := ranking order aggf hits.
+
+  Lemma page_before pre x suf : Rk = pre ++ x :: suf ->
+    rmap fst (topn_search consume n order (PBefore (h_sort x)) aggf b0 hits) = Ok (lastn (Z.to_nat n) pre).
+  Proof.
+    intro E.
+    assert (Hx : In x Rk) by (rewrite E; apply in_or_app; right; left; reflexivity).
+    rewrite before_page_full; [|lia| |exact KD].
+    - f_equal. f_equal. fold Rk. rewrite E. apply before_prefix; rewrite <- E.
+      + apply (isort_sorted _ (lawful_compare descs)).
+      + apply nodup_nums_nodup. apply (nodup_nums_perm prepared); [apply Permutation_sym, isort_perm | apply prepare_all_nodup].
+      + intros a b Ha Hb. apply KD; apply (isort_in (compare descs)); assumption.
+    - rewrite (prepare_all_sort_length _ _ _ _ x (proj1 (isort_in (compare descs) prepared x) Hx)). lia.
+  Qed.
+
+  Lemma before_chain_covers fuel : forall pre x suf, Rk = pre ++ x :: suf -> (length pre < fuel)%nat ->
+    before_chain consume fuel n order aggf b0 hits (h_sort x) = Ok pre.
+  Proof.
+    induction fuel as [|f IH]; intros pre x suf E Hf; [lia|].
+    cbn [before_chain]. rewrite (page_before pre x suf E). cbn [rbind].
+    unfold lastn. set (k := (length pre - Z.to_nat n)%nat).
+    remember (skipn k pre) as page eqn:Epage.
+    destruct page as [|y page'].
+    - (* empty page: pre is empty *)
+      destruct pre as [|p0 pre']; [reflexivity|].
+      assert (length (skipn k (p0 :: pre')) = 0%nat) by (rewrite <- Epage; reflexivity).
+      rewrite skipn_length in H. cbn [length] in *. lia.
+    - assert (Es : pre = firstn k pre ++ y :: page') by (rewrite Epage; symmetry; apply firstn_skipn).
+      rewrite (IH (firstn k pre) y (page' ++ x :: suf)).
+      + cbn [rbind]. rewrite <- Es. reflexivity.
+      + rewrite E at 1. rewrite Es at 1. rewrite <- app_assoc. reflexivity.
+      + rewrite firstn_length. pose proof (f_equal (@length hit) Es) as Hl.
+        rewrite app_length in Hl. cbn [length] in Hl. lia.
+  Qed.
+
+  (* paging_covers_before: starting from the sort value of any hit x of the ranking (in
+     particular the last one), chained search-before with any page size n > 0 returns, page by
+     page from the back and each page in forward order, exactly the hits in front of x: every
+     one once, in ranking order.  Fuel |hits| suffices. *)
+  Theorem paging_covers_before_all pre x suf : Rk = pre ++ x :: suf ->
+    before_chain consume (length hits) n order aggf b0 hits (h_sort x) = Ok pre.
+  Proof.
+    intro E. apply (before_chain_covers (length hits) pre x suf E).
+    pose proof (f_equal (@length hit) E) as Hl. unfold Rk, ranking in Hl.
+    rewrite isort_length, prepare_all_length, app_length in Hl. cbn [length] in Hl. lia.
+  Qed.
+End CoversBefore.
+
+Example paging_covers_before_ex :
+  rmap (map h_doc) (before_chain (fun _ (b : unit) => b) 12 5 ex_order2 [] tt ex12u [[4]; [2]])
+    = Ok [110; 105; 100; 108; 103; 111; 106; 101; 109; 104; 107] /\
+  map h_doc (ranking ex_order2 [] ex12u) = [110; 105; 100; 108; 103; 111; 106; 101; 109; 104; 107; 102] /\
+  map h_sort (skipn 11 (ranking ex_order2 [] ex12u)) = [[[4]; [2]]].
+Proof. vm_compute. repeat split. Qed.
